@@ -216,7 +216,11 @@ impl<'a> Sim<'a> {
         if v <= 2 {
             self.servers[n].next_local += 1;
             let local = format!("{}{}", self.servers[n].next_local, ["", "a", "Zz", "_x"][self.t.index(4)]);
-            let host = d.foreign_id_server.clone().unwrap_or_else(|| self.servers[n].name.clone());
+            // a Byzantine server may name another server in the id, but never reuses an id (no equivocation)
+            let (host, local) = match &d.foreign_id_server {
+                Some(h) => (h.clone(), format!("byz{n}x{local}")),
+                None => (self.servers[n].name.clone(), local),
+            };
             m.insert("event_id".into(), J::Str(format!("${local}:{host}")));
         }
         if self.t.chance(1, 3) {
@@ -391,7 +395,8 @@ impl<'a> Sim<'a> {
         let w = self.cfg.w.clone();
         // the first power-levels event: early in most runs, late in a third (DESIGN §4.3)
         if view.pl.is_none() && actor == self.creator && !(self.cfg.late_power_levels && self.actions_done < 8) && self.t.chance(1, 2) {
-            let content = gen::initial_power_levels(self.t, &view);
+            let many = self.cfg.many_admins;
+            let content = gen::initial_power_levels(self.t, &view, many);
             self.create_event(n, Draft { ty: "m.room.power_levels".into(), sender: actor, state_key: Some("".into()), content, label: "first-power-levels".into(), ..Default::default() });
             return;
         }
